@@ -250,6 +250,17 @@ def skipPI : Str → Option Str
   | c :: r => if isXmlChar c then skipPI r else none
   | [] => none
 
+/-- after `<?`: the PI target is a name other than `xml` (any case; XML 1.0 §2.6 reserves it for
+    the declaration, which `skipDecl` reads at the very start only), followed by white space or `?>` -/
+def piTargetOk (r : Str) : Bool :=
+  match takeName r with
+  | (t, rest) =>
+    isName t && lowerAscii t != ['x', 'm', 'l'] &&
+    (match rest with
+     | '?' :: '>' :: _ => true
+     | c :: _ => isWs c
+     | [] => false)
+
 def takeCData : Str → Option (Str × Str)
   | ']' :: ']' :: '>' :: r => some ([], r)
   | '\r' :: '\n' :: r => match takeCData r with | some (t, r') => some ('\n' :: t, r') | none => none
@@ -276,6 +287,7 @@ def pNode : Nat → Str → Option (Option Node × Str)
     | some (t, r') => some (some (.text false t), r')
     | none => none
   | _ + 1, '<' :: '?' :: r =>
+    if !piTargetOk r then none else
     match skipPI r with
     | some r' => some (none, r')
     | none => none
@@ -344,12 +356,14 @@ def skipMisc : Nat → Str → Option Str
   | fuel + 1, inp =>
     match skipWs inp with
     | '<' :: '!' :: '-' :: '-' :: r => match skipComment r with | some r' => skipMisc fuel r' | none => none
-    | '<' :: '?' :: r => match skipPI r with | some r' => skipMisc fuel r' | none => none
+    | '<' :: '?' :: r =>
+      if !piTargetOk r then none else match skipPI r with | some r' => skipMisc fuel r' | none => none
     | r => some r
 
 /-- `<?xml version="1.0" …?>` (optional) -/
 def skipDecl : Str → Option Str
-  | '<' :: '?' :: 'x' :: 'm' :: 'l' :: c :: r => if isWs c then skipPI r else none
+  | '<' :: '?' :: 'x' :: 'm' :: 'l' :: c :: r =>
+    if isWs c then skipPI r else some ('<' :: '?' :: 'x' :: 'm' :: 'l' :: c :: r)   -- e.g. `<?xml-stylesheet …?>`: an ordinary PI
   | r => some r
 
 /-- a whole document: the root element (children text-merged) -/
